@@ -582,6 +582,15 @@ def ypOr0 (yp : Option Nat) : Nat :=
   | some y => y
   | none => 0
 
+/-- tail of the uniquing `manyrows`: store the seen-set back, apply the post-creational
+    filter to the collected rows -/
+def manyFin {σ : Type} (sss : Bool) (h : Handle) (u : UQ) (r : Except Err (List Item) × List Key × σ) :
+    Except Err (List Item) × Handle × σ :=
+  match r with
+  | (.error e, seen', s') => (.error e, { h with uq := some { u with seen := seen' } }, s')
+  | (.ok l, seen', s') =>
+    (.ok (l.map (postItem sss h)), { h with uq := some { u with seen := seen' } }, s')
+
 /-- `_manyrow_getter` -/
 def manyrows (sss : Bool) (yp : Option Nat) (h : Handle) (num : Option Nat) (s : σ) :
     Except Err (List Item) × Handle × σ :=
@@ -591,15 +600,10 @@ def manyrows (sss : Bool) (yp : Option Nat) (h : Handle) (num : Option Nat) (s :
     | (.error e, s') => (.error e, h, s')
     | (.ok rows, s') => (.ok (rows.map (fun rw => postItem sss h (mkItem sss h rw))), h, s')
   | some u =>
-    let fin (r : Except Err (List Item) × List Key × σ) : Except Err (List Item) × Handle × σ :=
-      match r with
-      | (.error e, seen', s') => (.error e, { h with uq := some { u with seen := seen' } }, s')
-      | (.ok l, seen', s') =>
-        (.ok (l.map (postItem sss h)), { h with uq := some { u with seen := seen' } }, s')
     match num with
-    | some n => fin (manyLoop O sss h u.strat n (O.size s + 1) [] u.seen s)
+    | some n => manyFin sss h u (manyLoop O sss h u.strat n (O.size s + 1) [] u.seen s)
     | none =>
-      if ypOr0 yp != 0 then fin (manyLoop O sss h u.strat (ypOr0 yp) (O.size s + 1) [] u.seen s)
+      if ypOr0 yp != 0 then manyFin sss h u (manyLoop O sss h u.strat (ypOr0 yp) (O.size s + 1) [] u.seen s)
       else
         match O.fetchmany none s with
         | (.error e, s') => (.error e, h, s')
@@ -607,7 +611,7 @@ def manyrows (sss : Bool) (yp : Option Nat) (h : Handle) (num : Option Nat) (s :
           match uniqFold u.strat (rows.map (mkItem sss h)) u.seen with
           | (none, seen') => (.error .unhashable, { h with uq := some { u with seen := seen' } }, s')
           | (some out, seen') =>
-            fin (manyLoop O sss h u.strat rows.length (O.size s' + 1) out seen' s')
+            manyFin sss h u (manyLoop O sss h u.strat rows.length (O.size s' + 1) out seen' s')
 
 /-- `partitions(size)` pulled at most `k` times: `while True: partition = getter(self, size)` -/
 def partLoop (sss : Bool) (yp : Option Nat) (num : Option Nat) :
